@@ -311,6 +311,20 @@ FUNCTORS = {"plus": "+", "minus": "-", "multiplies": "*", "divides": "/", "modul
             "equal_to": "==", "not_equal_to": "!=", "less": "<", "greater": ">", "less_equal": "<=", "greater_equal": ">="}
 import re as _re
 FUNCTOR_RE = _re.compile(r"^std::(%s)<.*>::operator\(\)$" % "|".join(FUNCTORS))
+UNARY_FUNCTOR_RE = _re.compile(r"^std::(negate|bit_not|logical_not)<.*>::operator\(\)$")
+
+
+def strip_targs_name(n):
+    """qualified name with template argument lists removed"""
+    out, depth = [], 0
+    for ch in n:
+        if ch == "<":
+            depth += 1
+        elif ch == ">":
+            depth -= 1
+        elif depth == 0:
+            out.append(ch)
+    return "".join(out)
 
 
 class Engine:
@@ -378,7 +392,43 @@ class Engine:
                 return self.load(st, new)
         if lv[0] in ("tmp", "var") and lv in st.mem:
             return st.mem[lv]
+        cg = self.constexpr_global(lv)
+        if cg is not None:
+            return cg
         return ("rd", lv)
+
+    def constexpr_global(self, lv):
+        """value of a member (or element) of a constexpr object with static storage whose initialiser is an aggregate of constants:
+        `static constexpr descriptor d{A, B}` ... `d.from`"""
+        if not (isinstance(lv, tuple) and lv[:1] in (("fld",), ("idx",)) and isinstance(lv[1], tuple) and lv[1][:1] == ("global",)):
+            return None
+        if not hasattr(self, "_cx_statics"):
+            self._cx_statics = {}
+            for sv in getattr(self.db, "statics", []) or []:
+                if sv.get("init") is not None and sv.get("cx"):
+                    self._cx_statics.setdefault(strip_targs_name(sv.get("n") or ""), sv)
+        sv = self._cx_statics.get(strip_targs_name(lv[1][1]))
+        if sv is None:
+            return None
+        ini = self._strip_e(sv["init"])
+        while isinstance(ini, dict) and ini.get("k") in ("ctor", "construct") and len(ini.get("args") or []) == 1:
+            ini = self._strip_e(ini["args"][0])
+        if not (isinstance(ini, dict) and ini.get("k") == "initlist"):
+            return None
+        args = ini.get("args") or []
+        if lv[0] == "idx":
+            if not is_const(lv[2]) or not (0 <= lv[2][1] < len(args)):
+                return None
+            a = self._strip_e(args[lv[2][1]])
+        else:
+            rec = self.db.rec_by_id.get((sv.get("t") or {}).get("rid")) or {}
+            names = [fl["n"] for fl in rec.get("fields", [])]
+            if lv[2] not in names or names.index(lv[2]) >= len(args):
+                return None
+            a = self._strip_e(args[names.index(lv[2])])
+        if isinstance(a, dict) and "cv" in a:
+            return C(int(a["cv"]))
+        return None
 
     def store(self, st, lv, val, loc=None, vol=False, ty=None):
         st.mem[lv] = val
@@ -701,7 +751,7 @@ class Engine:
             outs = []
             for s, v in self.ev(st, fr, e):
                 t = e.get("t") or {}
-                if k == "call" and not self.is_rec(t) and not t.get("ref") and not e.get("lv"):
+                if k == "call" and not self.is_rec(t) and not t.get("ref") and not e.get("lv") and not (e.get("xv") and (e.get("fn") or {}).get("n") == "std::get"):
                     # scalar prvalue bound to a reference: materialise
                     obj = self.fresh("tmp", "mat")
                     s.mem[obj] = v
@@ -1015,6 +1065,20 @@ class Engine:
             n_ = self.std_array_extent(self._strip_e(args[0]).get("t"))
             sh_ = name.split("::")[-1]
             return [(s, C(n_) if sh_ in ("size", "ssize") else self.addr(("idx", lv, C(n_ if sh_ in ("end", "cend") else 0)))) for s, lv in self.ev_lv(st, fr, args[0])]
+        if name == "std::get" and len(args) == 1 and _re.match(r"^\d+[UuLl]*$", str((fnref.get("ta") or [""])[0])):
+            at_ = self._strip_e(args[0]).get("t") or {}
+            i_ = int(_re.match(r"^\d+", str(fnref["ta"][0])).group(0))
+            rn_ = at_.get("rn") or ""
+            if rn_ in ("std::pair", "std::tuple", "std::array") or rn_.startswith(("std::pair<", "std::tuple<", "std::array<")):
+                outs = []
+                for s, lv in self.ev_lv(st, fr, args[0]):
+                    if "pair" in rn_:
+                        outs.append((s, ("fld", lv, "first" if i_ == 0 else "second")))
+                    elif "tuple" in rn_:
+                        outs.append((s, ("fld", lv, "$t%d" % i_)))
+                    else:
+                        outs.append((s, ("idx", lv, C(i_))))
+                return outs
         if name == "std::exchange" and len(args) == 2:
             # old = obj; obj = new_value; return old
             outs = []
@@ -1068,6 +1132,27 @@ class Engine:
             r = self.addr(("idx", self.deref(thisv), C(0 if short in ("data", "begin", "cbegin") else self.std_array_extent({"k": "rec", "c": name[:name.rfind("::")]}))))
             self.emit(st, "CALL", name, [], thisv, loc=loc, extra={"ret": r, "fnid": (e.get("fn") or {}).get("id"), "rt": e.get("t"), "argvals": [], "native": True})
             return [(st, r)]
+        if name and name.startswith("std::optional<") and thisv is not None:
+            o_ = self.deref(thisv)
+            if short in ("has_value", "operator bool") and not av:
+                return [(st, self.load(st, ("fld", o_, "$has")))]
+            if short in ("operator*", "value") and not av:
+                return [(st, ("fld", o_, "$val"))]
+            if short == "operator->" and not av:
+                return [(st, self.addr(("fld", o_, "$val")))]
+            if short == "reset" and not av:
+                self.store(st, ("fld", o_, "$has"), C(0), loc=loc)
+                return [(st, ("void",))]
+            if short in ("operator=", "emplace") and len(av) == 1:
+                at_ = ((e.get("args") or [{}])[-1].get("t") or {}) if e.get("args") else {}
+                if at_.get("rn") == "std::nullopt_t":
+                    self.store(st, ("fld", o_, "$has"), C(0), loc=loc)
+                elif (at_.get("rn") or "").startswith("std::optional"):
+                    pass
+                else:
+                    self.store(st, ("fld", o_, "$has"), C(1), loc=loc)
+                    self.store(st, ("fld", o_, "$val"), av[0], loc=loc)
+                    return [(st, o_)]
         # abstract iterator positions (see exec_iterator_loop)
         def itpos(x):
             x = x[1] if isinstance(x, tuple) and x[:1] == ("addr",) else x
@@ -1117,6 +1202,12 @@ class Engine:
             vals = [self.load(st, a) if (isinstance(a, tuple) and a and a[0] in ("var", "tmp", "p", "pobj") and (a in st.mem or a[0] in ("p", "pobj"))) else a for a in av]
             vals = [("rd", v) if isinstance(v, tuple) and v[:1] == ("pobj",) else v for v in vals]
             return [(st, self.binop(FUNCTORS[m_.group(1)], vals[0], vals[1]))]
+        m1_ = UNARY_FUNCTOR_RE.match(name or "")
+        if m1_ and short == "operator()" and len(av) == 1:
+            v_ = self.load(st, av[0]) if (isinstance(av[0], tuple) and av[0] and av[0][0] in ("var", "tmp", "p", "pobj") and (av[0] in st.mem or av[0][0] in ("p", "pobj"))) else av[0]
+            v_ = ("rd", v_) if isinstance(v_, tuple) and v_[:1] == ("pobj",) else v_
+            k_ = m1_.group(1)
+            return [(st, lin("-", C(0), v_) if k_ == "negate" else (neg(truthy(v_)) if k_ == "logical_not" else ("un", "~", v_)))]
         pure = any(short.startswith(p) for p in PURE_PREFIXES) or name in ("std::numeric_limits::max", "std::numeric_limits::min")
         if pure:
             r = ("call", name, tuple(av), thisv)
@@ -1317,6 +1408,18 @@ class Engine:
                 outs.append((s2, rv if rv is not None else ("void",)))
         return outs
 
+    def glvalue_arg_value(self, s, ae, a):
+        """value of a scalar argument handed to a natively modelled std constructor taking forwarding references: an argument
+        expression that is a glvalue designates an object, whose current value is what the constructor copies"""
+        se = self._strip_e(ae)
+        if self.is_rec(se.get("t") or {}) or not isinstance(a, tuple):
+            return a
+        if a[:1] in (("var",), ("tmp",)) and a in s.mem:
+            return self.load(s, a)
+        if (se.get("lv") or se.get("xv")) and a[:1] in (("fld",), ("idx",), ("deref",), ("global",), ("elem",)):
+            return self.load(s, a)
+        return a
+
     def ev_ctor(self, st, fr, e):
         fnref = e["fn"]
         args = e["args"]
@@ -1346,6 +1449,33 @@ class Engine:
                 self.emit(s, "CTOR", obj, fnref["n"], av, loc=loc, extra={"t": t})
                 for s2, _ in self.inline(s, callee, self.addr(obj), av, pmodes, loc):
                     outs.append((s2, obj))
+            return outs
+        if (fnref.get("n") or "").startswith("std::optional<") and len(args) <= 1 and not e.get("copymove"):
+            # std::optional modelled natively: an engaged flag and a value slot
+            outs = []
+            for s, av in self.ev_args(st, fr, args, ["v"] * len(args)):
+                empty = not args or ((self._strip_e(args[0]).get("t") or {}).get("rn") == "std::nullopt_t")
+                s.mem[("fld", obj, "$has")] = C(0 if empty else 1)
+                if not empty:
+                    # the converting constructor takes U&&: a scalar variable named as the argument is read here
+                    s.mem[("fld", obj, "$val")] = self.glvalue_arg_value(s, args[0], av[0])
+                self.emit(s, "CTOR", obj, fnref["n"], list(av), loc=loc, extra={"t": t, "native": True})
+                outs.append((s, obj))
+            return outs
+        cn_ = fnref.get("n") or ""
+        if (cn_.startswith("std::pair<") and len(args) == 2 or cn_.startswith("std::tuple<") and args) and not e.get("copymove"):
+            # std::pair / std::tuple modelled natively: one slot per element (first / second, $t0 $t1 ...)
+            names = ["first", "second"] if cn_.startswith("std::pair<") else ["$t%d" % i_ for i_ in range(len(args))]
+            outs = []
+            for s, av in self.ev_args(st, fr, args, ["v"] * len(args)):
+                for nm_, a_, ae_ in zip(names, av, args):
+                    a_ = self.glvalue_arg_value(s, ae_, a_)
+                    if self.is_rec(self._strip_e(ae_).get("t") or {}) and isinstance(a_, tuple):
+                        self.copy_object(s, ("fld", obj, nm_), a_)
+                    else:
+                        s.mem[("fld", obj, nm_)] = a_
+                self.emit(s, "CTOR", obj, fnref["n"], list(av), loc=loc, extra={"t": t, "native": True})
+                outs.append((s, obj))
             return outs
         # opaque constructor (std types, defaulted)
         outs = []
@@ -1494,10 +1624,103 @@ class Engine:
         if kind == "try":
             return self.exec(st, fr, s["body"])
         if kind == "switch":
-            raise Inconclusive("switch statement at %s (idiom not enumerated)" % s.get("loc"))
+            return self.exec_switch(st, fr, s)
         raise Inconclusive("unhandled statement kind %s at %s" % (kind, s.get("loc")))
 
+    def exec_switch(self, st, fr, s):
+        """switch (v) { case k1: ... break; case k2: case k3: ...; default: ... }: one path per entry label (v == k, or v different from
+        every case constant for `default` / for skipping the body), executing from the label to the next break (fall-through included)"""
+        body = s.get("body") or {}
+        stmts = list(body.get("b") or []) if body.get("s") == "block" else [body]
+        flat = []
+        for x in stmts:
+            labels = []
+            while isinstance(x, dict) and x.get("s") in ("case", "default"):
+                labels.append(x.get("c") if x["s"] == "case" else "default")
+                x = x.get("body")
+            flat.append((labels, x))
+        states = [st]
+        if s.get("init"):
+            states = self.exec(st, fr, s["init"])
+        outs = []
+        for q0 in states:
+            if q0.status != "run":
+                outs.append(q0)
+                continue
+            for q, v in self.ev(q0, self._fr(q0, fr), s["c"]):
+                if q.status != "run":
+                    outs.append(q)
+                    continue
+                consts = []
+                for labels, _ in flat:
+                    for lab in labels:
+                        if lab != "default":
+                            ce = self._strip_e(lab)
+                            cv = [c_ for _q, c_ in self.ev(q.clone(), self._fr(q, fr), ce)]
+                            if len(cv) != 1 or not is_const(cv[0]):
+                                raise Inconclusive("switch case label is not a constant at %s" % s.get("loc"))
+                            consts.append((id(lab), cv[0]))
+                cmap = dict(consts)
+                not_any = [cmp_("!=", v, c_) for _i, c_ in consts]
+                has_default = any("default" in labels for labels, _ in flat)
+                entries = []
+                for i, (labels, _) in enumerate(flat):
+                    for lab in labels:
+                        entries.append((i, None if lab == "default" else cmap[id(lab)]))
+                if not has_default:
+                    entries.append((len(flat), None))
+                for i, cval in entries:
+                    q2 = q.clone()
+                    ok = True
+                    for c in ([cmp_("==", v, cval)] if cval is not None else not_any):
+                        if is_const(c):
+                            ok = ok and bool(c[1])
+                        elif ok:
+                            ok = self.assume(q2, c, s.get("loc"))
+                    if not ok:
+                        continue
+                    blk = {"s": "block", "b": [x for _l, x in flat[i:] if x is not None], "loc": s.get("loc")}
+                    for q3 in self.exec(q2, self._fr(q2, fr), blk):
+                        if q3.status == "break":
+                            q3.status = "run"
+                        outs.append(q3)
+                    self.npaths += 1
+        if self.npaths > self.max_paths:
+            raise Inconclusive("path budget exceeded")
+        return outs
+
     def exec_decl(self, st, fr, v):
+        if v.get("bindings"):
+            # structured bindings: the hidden object first, then each name bound to the member / element expression or to the hidden
+            # reference initialised with get<I>(object)
+            outs = []
+            for q in self._exec_decl1(st, fr, v):
+                states = [q]
+                for b in v["bindings"]:
+                    nxt = []
+                    for q2 in states:
+                        if q2.status != "run":
+                            nxt.append(q2)
+                            continue
+                        f2 = self._fr(q2, fr)
+                        if b.get("hold"):
+                            for q3 in self._exec_decl1(q2, f2, b["hold"]):
+                                f3 = self._fr(q3, fr)
+                                if b["hold"]["d"] in f3.binds:
+                                    f3.binds[b["d"]] = f3.binds[b["hold"]["d"]]
+                                nxt.append(q3)
+                        elif b.get("e") is not None:
+                            for q3, lv in self.ev_lv(q2, f2, b["e"]):
+                                self._fr(q3, fr).binds[b["d"]] = lv
+                                nxt.append(q3)
+                        else:
+                            nxt.append(q2)
+                    states = nxt
+                outs += states
+            return outs
+        return self._exec_decl1(st, fr, v)
+
+    def _exec_decl1(self, st, fr, v):
         t = v.get("t") or {}
         d = v["d"]
         init = v.get("init")
